@@ -117,6 +117,11 @@ type Catalog struct {
 	MigrationLedgerObjs map[string]*PerLedgerObj
 	// History of function definitions (name -> origins in order), for diagnostics.
 	FuncHistory map[string][]string
+	// UniqueSnapshots holds, after each migration file in order, the set of unique constraints
+	// present (keyed by table, column list and predicate — not by name, so renames and
+	// drop+recreate inside one file are invisible): a constraint that disappears after file F and
+	// reappears after a later file leaves a window during which the upgrade runs unprotected.
+	UniqueSnapshots []UniqueSnapshot
 
 	// Transactional selects the value of the .Transactional template variable.
 	Transactional bool
@@ -246,8 +251,30 @@ func (c *Catalog) LoadMigrations(dir string, read func(string) ([]byte, error)) 
 		}
 		c.Files++
 		c.ApplyScript(ResolveTemplateIfs(string(b), c.Transactional), fmt.Sprintf("migrations/%s/up.sql", m.name), false, "")
+		snap := UniqueSnapshot{File: fmt.Sprintf("migrations/%s/up.sql", m.name), Keys: map[string]bool{}}
+		for _, ix := range c.Indexes {
+			if ix.Unique {
+				snap.Keys[UniqueKey(ix)] = true
+			}
+		}
+		c.UniqueSnapshots = append(c.UniqueSnapshots, snap)
 	}
 	return nil
+}
+
+// UniqueSnapshot is the set of unique constraints present after one migration file.
+type UniqueSnapshot struct {
+	File string
+	Keys map[string]bool
+}
+
+// UniqueKey identifies a unique index by what it constrains.
+func UniqueKey(ix *Index) string {
+	w := ""
+	if ix.Where != nil {
+		w = " where " + Canon(ix.Where)
+	}
+	return ix.Table + "(" + strings.Join(ix.Cols, ",") + ")" + w
 }
 
 // ApplyScript folds one SQL script into the catalog.
